@@ -69,7 +69,7 @@ def check(pid, tier, seed, replay=None):
             rng = random.Random(seed)
             for i in range(1500 if thorough else 300):
                 G = rng.randint(2, 5)
-                scripts.append({"id": "free-%d" % i, "shapes": [[rng.choice(["flat", "dict", "arr", "carr", "obj", "big", "flat", "ctxobj", "ctxarr", "fobj"]) for _ in range(rng.randint(1, 4))] for _ in range(G)],
+                scripts.append({"id": "free-%d" % i, "shapes": [[rng.choice(["flat", "dict", "arr", "carr", "obj", "big", "flat", "ctxobj", "ctxarr", "fobj", "drop", "drop"]) for _ in range(rng.randint(1, 4))] for _ in range(G)],
                                 "steps": [], "free": True, "seed": rng.randrange(1 << 30), "sync": i % 3 == 0, "wrap": (i // 3) % 3})
             log("%s: model checked, %d scripts %.0fs" % (pid, len(scripts), time.time() - t0))
         recs = run_player(player, sc, "lconc", [json.dumps(s) for s in scripts], shards=NCPU, out_name="conc.ndjson")
